@@ -196,8 +196,11 @@ def mps_worker(job: dict) -> dict:
                         if below > slack:
                             values_ok = False
                             why.append(f"energy@{t:.4f}: {E:.10f} below the exact ground energy {e0[kk]:.10f}")
-                        close_bud = 10.0 * 1e-5 + 2 * max(n - 1, 1) * prec * hnorm
-                        if gaps[kk] > 100.0 * close_bud and job.get("max_bond_dim", 1024) >= 2 ** (n // 2):
+                        # the energy of a variational state is second order in the state error: a truncation of relative weight
+                        # precision^2 per bond costs at most ~ precision^2 * (spectral range) in energy
+                        hrange = float(evals[kk][-1] - evals[kk][0])
+                        close_bud = 10.0 * 1e-5 + 20.0 * max(n - 1, 1) * prec**2 * hrange + 1e-9 * hnorm
+                        if gaps[kk] > job.get("gap_factor", 10.0) * close_bud and job.get("max_bond_dim", 1024) >= 2 ** (n // 2):
                             out.setdefault("gapped", 0)
                             out["gapped"] += 1
                             if abs(E - e0[kk]) > close_bud:
